@@ -68,6 +68,23 @@ fn gen_case(rng: &mut Rng) -> Case {
     }
     let mut els = vec![];
     for (i, (s, bx)) in [(sa, a), (sb, b)].iter().enumerate() {
+        if *s == "rect" && rng.chance(1, 3) {
+            // the box is that of a <use> of a template standing elsewhere (rect templates only: a <use>
+            // of a circle / ellipse has its x / y rewritten, the open finding C04:use-of-centred-shape)
+            let (dx, dy) = (rng.range(-40, 40) as f64 / 2.0, rng.range(-40, 40) as f64 / 2.0);
+            let tb = [bx[0] - dx, bx[1] - dy, bx[2] - dx, bx[3] - dy];
+            let mut t = El::new(s);
+            t.push("id", &format!("t{i}"));
+            for (k, v) in native_el(s, &tb) { t.push(&k, &v); }
+            els.push(t);
+            let mut u = El::new("use");
+            u.push("id", &format!("b{i}"));
+            u.push("href", &format!("#t{i}"));
+            u.push("x", &fstr_ref(dx));
+            u.push("y", &fstr_ref(dy));
+            els.push(u);
+            continue;
+        }
         let mut el = El::new(s);
         el.push("id", &format!("b{i}"));
         for (k, v) in native_el(s, bx) {
@@ -251,7 +268,7 @@ fn stream(rep: &mut Report, drv: &mut Driver, rng: &mut Rng, n: usize) -> Result
     let mut corr = Stream::new(
         "doc/connector",
         "correspondence",
-        "two rect/circle/ellipse boxes in every relative placement (before/after/touching/overlapping/aligned per axis, identical) and a <line>/<polyline> with start/end given as element, element@loc, element@edge:offset or literal point; kinds straight, edge-type h/v, corner polyline with corner-offset abs/percent/none; output element vs the Lean model attribute for attribute; non-trivial = every case",
+        "two rect/circle/ellipse boxes (one in four the box of a <use> of a template standing elsewhere) in every relative placement (before/after/touching/overlapping/aligned per axis, identical) and a <line>/<polyline> with start/end given as element, element@loc, element@edge:offset or literal point; kinds straight, edge-type h/v, corner polyline with corner-offset abs/percent/none; output element vs the Lean model attribute for attribute; non-trivial = every case",
     );
     let mut orc = Stream::new(
         "oracle/connector",
@@ -268,6 +285,7 @@ fn stream(rep: &mut Report, drv: &mut Driver, rng: &mut Rng, n: usize) -> Result
         let es = |e: &End| match e { End::Pt(..) => "point", End::El(_, Some(l)) if l.contains(':') => "el@edge", End::El(_, Some(_)) => "el@loc", End::El(_, None) => "el" };
         corr.tally(&format!("ends={}/{}", es(&case.start), es(&case.end)));
         if case.offset.is_some() { corr.tally("corner-offset"); }
+        if case.els.iter().any(|e| e.name == "use") { corr.tally("end-is-use"); }
         let mut els: Vec<String> = case.els.iter().map(|e| e.encode()).collect();
         els.push(case.conn.encode());
         let elr: Vec<&str> = els.iter().map(|s| s.as_str()).collect();
@@ -278,10 +296,15 @@ fn stream(rep: &mut Report, drv: &mut Driver, rng: &mut Rng, n: usize) -> Result
             Ok(Err(e)) => {
                 if m_err { corr.errors_agreed += 1; corr.tally("error-agreed"); }
                 else { rep.violation(Violation { kind: "correspondence", stream: corr.name.clone(), signature: "doc:impl-error".into(), what: format!("implementation fails ({e}) where the model succeeds"), replay: json!({"input": doc}), confirmed_on_impl: false }); }
+                // a straight / h / v connector between two existing elements (or literal points) is always
+                // drawable; only a U-shaped corner connector with a percentage offset is rejected by design
+                if case.kind != "corner" {
+                    rep.violation(Violation { kind: "oracle", stream: orc.name.clone(), signature: format!("C13:rejected:{}", case.kind), what: format!("a {} connector between existing elements is not drawn: {e}", case.kind), replay: json!({"input": doc}), confirmed_on_impl: true });
+                }
             }
             Ok(Ok(out)) => {
                 let outs = match parse_elements(&out) { Ok(o) => o, Err(e) => { rep.violation(Violation { kind: "oracle", stream: orc.name.clone(), signature: "C13:unparseable".into(), what: e, replay: json!({"input": doc}), confirmed_on_impl: true }); continue; } };
-                let imp: Vec<El> = outs.iter().filter(|o| o.el.get("id").is_some_and(|i| ["b0", "b1", "k"].contains(&i))).map(|o| o.el.clone()).collect();
+                let imp: Vec<El> = outs.iter().filter(|o| o.el.get("id").is_some_and(|i| ["b0", "b1", "t0", "t1", "k"].contains(&i))).map(|o| o.el.clone()).collect();
                 let mdl: Vec<El> = m.iter().map(|f| El::decode(f)).collect();
                 if !m_err && imp == mdl {
                     corr.exact += 1;
